@@ -74,6 +74,12 @@ func (s ICEServer) urls() ([]*stun.URI, error) { //nolint:cyclop
 }
 
 func iceserverUnmarshalUrls(val any) (*[]string, error) {
+	if val == nil {
+		// JSON null is what MarshalJSON writes for a nil URL list
+		var out []string
+
+		return &out, nil
+	}
 	s, ok := val.([]any)
 	if !ok {
 		return nil, errInvalidICEServer
